@@ -226,7 +226,27 @@ func init() {
 		"(*os.File).Close":        func(e *Engine, _ *frame, _ token.Pos, a []Value) Value { return Iface{} },
 		"os.Exit":                 func(e *Engine, _ *frame, _ token.Pos, a []Value) Value { panic(exitPanic{asT(a[0])}) },
 		"os.Getwd":                func(e *Engine, _ *frame, _ token.Pos, a []Value) Value { return Tuple{e.cwd, Iface{}} },
-		"runtime.GOMAXPROCS":      func(e *Engine, _ *frame, _ token.Pos, a []Value) Value { return cint(4) },
+		// environment: an arbitrary processor count 1..256, one value per run
+		"runtime.GOMAXPROCS": func(e *Engine, _ *frame, _ token.Pos, a []Value) Value {
+			if e.notes == nil || e.initing {
+				return cint(4) // package initialisation runs once, concretely
+			}
+			if e.gomaxprocs == nil {
+				e.note("model:GOMAXPROCS symbolic 1..256")
+				if e.opt.IntMode {
+					v := e.input("env_gomaxprocs", -1).(*term.T)
+					e.assume(term.ILe(term.IntConst(1), v))
+					e.assume(term.ILe(v, term.IntConst(256)))
+					e.gomaxprocs = v
+				} else {
+					v := e.input("env_gomaxprocs", 64).(*term.T)
+					e.assume(term.Ule(term.Const(64, 1), v))
+					e.assume(term.Ule(v, term.Const(64, 256)))
+					e.gomaxprocs = v
+				}
+			}
+			return e.gomaxprocs
+		},
 		"fmt.Sprintf":             fmtSprintf,
 		"fmt.Errorf":              fmtErrorf,
 		"fmt.Printf":              func(e *Engine, _ *frame, _ token.Pos, a []Value) Value { return Tuple{cint(0), Iface{}} },
